@@ -1,11 +1,239 @@
-(* C08 — property theorems. *)
-From Coq Require Import ZArith List Bool Lia Permutation Sorted.
+(* C08 — property theorems.  Only statements closed by `exact <lemma>` (or a short wrapper)
+   and the Print Assumptions the check collects.
+
+   Vocabulary (Model.v): `geometry g e sites split sort` is geometry_from_meta(..., return_index=True)
+   for probe generation g, metadata encoding e, the parsed site table `sites`
+   (shank : a : b : flag per entry), an optional NP2.4_shank key and the sort flag; it returns the
+   dictionary of columns (record `geom`) and the index vector.  Domain: at most 384 entries; in the
+   geometry-map encoding, coordinates on the site grid (otherwise the model returns None). *)
+From Coq Require Import ZArith List Bool Lia Permutation Sorted Field.
 From IBL.lib Require Import PyInt.
-From IBL.C08 Require Import Model Proofs.
+From IBL.C08 Require Import Model Adc Proofs Canon.
 Import ListNotations.
 Open Scope Z_scope.
 
-Theorem C08_adc_loop_is_table : forall g,
-  adc_shifts g NC = Some (map (shift_closed g) (zrange NC), map (adc_of g) (zrange NC)).
-Proof. exact adc_loop_closed. Qed.
-Print Assumptions C08_adc_loop_is_table.
+(* ---- sorting is a true permutation: each site exactly once ---- *)
+Theorem C08_sort_is_permutation : forall g e sites split t' inds,
+  geometry g e sites split true = Some (t', inds) ->
+  exists t, geometry g e sites split false = Some (t, zrange (gsize t)) /\
+    inds = lexsort t /\
+    Permutation inds (zrange (gsize t)) /\ NoDup inds /\ length inds = gsize t /\
+    (forall j, In j inds <-> 0 <= j < Z.of_nat (gsize t)).
+Proof.
+  intros g e sites split t' inds H.
+  destruct (sorted_geometry_facts _ _ _ _ _ _ H) as [t [Hf [-> _]]].
+  exists t. split; [exact Hf|]. split; [reflexivity|].
+  split; [apply lexsort_perm|]. split; [apply lexsort_once|].
+  split; [apply lexsort_length|apply lexsort_once].
+Qed.
+Print Assumptions C08_sort_is_permutation.
+
+(* ---- every per-site attribute moves with the same index vector ----
+   all nine columns (shank, col, row, flag, x, y, sampling delay, ADC, original index) of the sorted
+   geometry are the unsorted columns re-indexed by `inds`; both are rectangular; the `ind` column of
+   the sorted geometry is the index vector itself. *)
+Theorem C08_attributes_move_together : forall g e sites split t' inds,
+  geometry g e sites split true = Some (t', inds) ->
+  exists t, geometry g e sites split false = Some (t, zrange (gsize t)) /\
+    columns t' = map (gather inds) (columns t) /\ g_ind t' = inds /\
+    rect t (gsize t) /\ rect t' (gsize t) /\
+    (forall c i, In c (columns t) -> 0 <= i < Z.of_nat (gsize t) ->
+       znth (gather inds c) i = znth c (znth inds i)).
+Proof.
+  intros g e sites split t' inds H.
+  destruct (sorted_geometry_facts _ _ _ _ _ _ H) as [t [Hf [Hi [Hc [Hind [Hr Hr']]]]]].
+  exists t. repeat split; try assumption.
+  intros c i _ Hrange. apply znth_gather. subst inds. now rewrite lexsort_length.
+Qed.
+Print Assumptions C08_attributes_move_together.
+
+(* ---- ordered by shank, then row, then descending column; ties keep the recording order ---- *)
+Theorem C08_sort_is_sorted_stable : forall g e sites split t' inds,
+  geometry g e sites split true = Some (t', inds) ->
+  forall i j, 0 <= i -> i < j -> j < Z.of_nat (gsize t') ->
+  ordered_at (g_shank t') (g_row t') (g_col t') (g_ind t') i j.
+Proof.
+  intros g e sites split t' inds H i j H0 Hij Hj.
+  destruct (geometry_sorted_inv _ _ _ _ _ _ H) as [t [Hf [-> ->]]].
+  destruct (geometry_unsorted_of_false _ _ _ _ _ _ Hf) as [Hu _].
+  destruct (geometry_unsorted_rect _ _ _ _ _ Hu) as [_ Hind].
+  apply sorted_columns_ordered; try assumption.
+  unfold gsize in Hj. cbn [gmap g_col] in Hj. rewrite gather_length, lexsort_length in Hj. exact Hj.
+Qed.
+Print Assumptions C08_sort_is_sorted_stable.
+
+(* ---- the index vector is determined by the stable-sort specification alone: any permutation
+   of the positions that is ordered by (shank, row, -col, position) is the model's index ---- *)
+Theorem C08_sort_index_unique : forall t l,
+  Permutation l (zrange (gsize t)) -> StronglySorted (before (sort_key t)) l -> l = lexsort t.
+Proof. exact lexsort_unique. Qed.
+Print Assumptions C08_sort_index_unique.
+
+(* ---- the unsorted geometry lists recorded site i at position i, once; its ADC group and delay
+   are functions of the channel number i and the generation only ---- *)
+Theorem C08_each_site_once : forall g e sites t,
+  geometry_unsorted g e sites None = Some t ->
+  gsize t = length sites /\ rect t (length sites) /\
+  forall i, (i < length sites)%nat ->
+    let z := Z.of_nat i in
+    znth (g_shank t) z = s_shank (nth i sites dsite) /\
+    znth (g_flag t) z = s_flag (nth i sites dsite) /\
+    site_crxy g e (nth i sites dsite) =
+      Some (znth (g_col t) z, znth (g_row t) z, znth (g_x t) z, znth (g_y t) z) /\
+    znth (g_adc t) z = adc_of g z /\
+    znth (g_shift t) z = shift_closed g z /\
+    znth (g_ind t) z = z.
+Proof. exact unsorted_describes_sites. Qed.
+Print Assumptions C08_each_site_once.
+
+(* ---- row/col and x/y are exact inverses on the grid (integers) ... ---- *)
+Theorem C08_rc_xy_inverse_grid : forall g,
+  (forall c, xy2c g (rc2x g c) = Some c) /\ (forall r, xy2r g (rc2y g r) = Some r) /\
+  (forall x c, xy2c g x = Some c -> rc2x g c = x) /\ (forall y r, xy2r g y = Some r -> rc2y g r = y).
+Proof.
+  intros g. repeat split.
+  - apply xy2c_rc2x.  - apply xy2r_rc2y.  - apply rc2x_xy2c.  - apply rc2y_xy2r.
+Qed.
+Print Assumptions C08_rc_xy_inverse_grid.
+
+(* ---- ... and, as formulas, over every field (the reals: the intended semantics of the float
+   code), for any non-zero pitch ---- *)
+Theorem C08_rc_xy_inverse_field :
+  forall (F : Type) (f0 f1 : F) (fadd fmul fsub : F -> F -> F) (fopp : F -> F)
+         (fdiv : F -> F -> F) (finv : F -> F),
+  field_theory f0 f1 fadd fmul fsub fopp fdiv finv (@eq F) ->
+  forall d o v, d <> f0 ->
+    xy2rc_F F fsub fdiv d o (rc2xy_F F fadd fmul d o v) = v /\
+    rc2xy_F F fadd fmul d o (xy2rc_F F fsub fdiv d o v) = v.
+Proof.
+  intros F f0 f1 fadd fmul fsub fopp fdiv finv Fth d o v Hd. split.
+  - exact (field_xy_of_rc F f0 f1 fadd fmul fsub fopp fdiv finv Fth d o v Hd).
+  - exact (field_rc_of_xy F f0 f1 fadd fmul fsub fopp fdiv finv Fth d o v Hd).
+Qed.
+Print Assumptions C08_rc_xy_inverse_field.
+
+(* ---- the two metadata encodings of a site table give the same geometry (NP1, NP2, NP2 4-shank),
+   for every table, split and sort flag — given SpikeGLX's layout convention geom_entry ---- *)
+Theorem C08_encodings_agree : forall g sites split srt, g <> NPU ->
+  geometry g GeomMap (map (geom_entry g) sites) split srt = geometry g ShankMap sites split srt.
+Proof. exact encodings_geometry. Qed.
+Print Assumptions C08_encodings_agree.
+
+(* ---- a split shank's geometry is the restriction of its parent's (unsorted): every column is the
+   parent's column at the positions idx of that shank, idx increasing and exactly those positions;
+   only the running index is renumbered ---- *)
+Theorem C08_split_is_restriction : forall g e sites s t',
+  geometry_unsorted g e sites (Some s) = Some t' ->
+  exists t, geometry_unsorted g e sites None = Some t /\
+    let idx := where_eq s (g_shank t) in
+    g_shank t' = gather idx (g_shank t) /\ g_col t' = gather idx (g_col t) /\
+    g_row t' = gather idx (g_row t) /\ g_flag t' = gather idx (g_flag t) /\
+    g_x t' = gather idx (g_x t) /\ g_y t' = gather idx (g_y t) /\
+    g_shift t' = gather idx (g_shift t) /\ g_adc t' = gather idx (g_adc t) /\
+    g_ind t' = zrange (length idx) /\ gsize t' = length idx /\
+    StronglySorted Z.lt idx /\
+    (forall j, In j idx <-> 0 <= j < Z.of_nat (length (g_shank t)) /\ znth (g_shank t) j = s).
+Proof.
+  intros g e sites s t' H.
+  destruct (split_is_restriction _ _ _ _ _ H) as [t [Hu Hc]]. exists t. split; [exact Hu|].
+  cbv zeta in *. decompose [and] Hc.
+  do 10 (split; [assumption|]). split; [apply where_eq_increasing|].
+  intros j. apply where_eq_spec.
+Qed.
+Print Assumptions C08_split_is_restriction.
+
+(* ---- ... and sorted: sorting the split geometry = deleting the other shanks from the sorted
+   parent index (positions of the child mapped back to the parent through idx) ---- *)
+Theorem C08_split_commutes_with_sort : forall g e sites s t t',
+  geometry_unsorted g e sites None = Some t -> geometry_unsorted g e sites (Some s) = Some t' ->
+  map (znth (where_eq s (g_shank t))) (lexsort t') =
+  filter (fun j => znth (g_shank t) j =? s) (lexsort t).
+Proof. exact split_sort_commute. Qed.
+Print Assumptions C08_split_commutes_with_sort.
+
+(* ---- split_trace_header: every key indexed by the positions of the shank ---- *)
+Theorem C08_split_trace_header_restriction : forall h s,
+  let idx := where_eq s (g_shank h) in
+  columns (split_trace_header h s) = map (gather idx) (columns h) /\
+  StronglySorted Z.lt idx /\
+  (forall j, In j idx <-> 0 <= j < Z.of_nat (length (g_shank h)) /\ znth (g_shank h) j = s).
+Proof.
+  intros h s idx. split; [reflexivity|]. split; [apply where_eq_increasing|].
+  intros j. apply where_eq_spec.
+Qed.
+Print Assumptions C08_split_trace_header_restriction.
+
+(* ---- ADC tables for NC = 384, per generation, by exhaustive kernel evaluation of the loop:
+   closed forms; each ADC serves exactly adc_channels channels at the distinct, evenly spaced
+   delays 0/cycles .. (A-1)/cycles, in channel order; fewer channels = a prefix ---- *)
+Theorem C08_adc_table : forall g,
+  adc_shifts g NC = Some (map (shift_closed g) (zrange NC), map (adc_of g) (zrange NC)) /\
+  (forall a, In a (adc_all g) ->
+     (* served g a = filter (fun c => adc_of g c =? a) (zrange NC): the channels of ADC a *)
+     map (shift_closed g) (served g a) = zrange (Z.to_nat (adc_channels g))) /\
+  (forall n, adc_shifts g n = Some (firstn n (map (shift_closed g) (zrange NC)),
+                                    firstn n (map (adc_of g) (zrange NC)))).
+Proof.
+  intros g. split; [apply adc_loop_closed|]. split; [apply adc_each_served|apply adc_shifts_prefix].
+Qed.
+Print Assumptions C08_adc_table.
+
+(* ---- canonical layouts: trace_header(version, nshank) = unsorted geometry of the canonical
+   dense site table, in both encodings (finite, by evaluation) ---- *)
+Theorem C08_canonical_layouts :
+  forall p, In p [(NP1, 1, false); (NP1, 1, true); (NP21, 1, false); (NP21, 1, true);
+                  (NP24, 1, false); (NP24, 4, false); (NP24, 4, true); (NP21, 4, false);
+                  (NPU, 1, false)] ->
+  canon_ok (fst (fst p)) (snd (fst p)) (snd p) = true.
+Proof. apply forallb_forall. exact canon_all. Qed.
+Print Assumptions C08_canonical_layouts.
+
+(* ---- sorting preserves the original NP1 order; the 4-shank default sorts into 4 blocks of 96 ---- *)
+Theorem C08_canonical_sorted :
+  (exists th, trace_header NP1 1 = Some th /\ lexsort th = zrange NC) /\
+  (exists th, trace_header NP24 4 = Some th /\
+              gather (lexsort th) (g_shank th) = map (fun c => c / 96) (zrange NC)).
+Proof.
+  split.
+  - pose proof np1_sorted_identity as H. destruct (trace_header NP1 1) as [th|]; [|discriminate].
+    exists th. split; [reflexivity|]. now apply zl_eqb_eq.
+  - pose proof np24_sorted_blocks as H. destruct (trace_header NP24 4) as [th|]; [|discriminate].
+    exists th. split; [reflexivity|]. now apply zl_eqb_eq.
+Qed.
+Print Assumptions C08_canonical_sorted.
+
+(* ---- F-C08-a: the ADC clause fails for saved-channel subsets.  The geometry of a table whose
+   entries are the original channels 24..27 of an NP1 probe carries the ADC groups of channels
+   0..3, not those of the original channel numbers ---- *)
+Theorem C08_adc_subset_refuted :
+  exists g sites orig t,
+    StronglySorted Z.lt orig /\ length orig = length sites /\
+    Forall (fun c => 0 <= c < Z.of_nat NC) orig /\
+    geometry_unsorted g ShankMap sites None = Some t /\
+    exists i, 0 <= i < Z.of_nat (length sites) /\ znth (g_adc t) i <> adc_of g (znth orig i).
+Proof.
+  exists NP1, subset_sites, subset_orig.
+  pose proof subset_witness as H.
+  destruct (geometry_unsorted NP1 ShankMap subset_sites None) as [t|] eqn:E; [|discriminate].
+  exists t. split; [repeat constructor|]. split; [reflexivity|].
+  split; [repeat constructor; unfold NC; lia|]. split; [reflexivity|].
+  exists 0. split; [cbn; lia|].
+  apply andb_true_iff in H as [H _]. apply andb_true_iff in H as [H _]. apply andb_true_iff in H as [H _].
+  apply zl_eqb_eq in H. rewrite H. vm_compute. discriminate.
+Qed.
+Print Assumptions C08_adc_subset_refuted.
+
+(* ---- non-vacuity: concrete inputs meeting the hypotheses, with the model's values ---- *)
+Example C08_example_sorted_split :
+  geometry NP24 ShankMap [(1, 0, 5, 1); (0, 1, 5, 1); (1, 1, 5, 0); (0, 0, 5, 1)] (Some 1) true
+  = Some (mkgeom [1; 1] [1; 0] [5; 5] [0; 1] [59; 27] [95; 95] [1; 0] [0; 0] [1; 0], [1; 0]).
+Proof. vm_compute. reflexivity. Qed.
+
+Example C08_example_encodings :
+  geometry NP1 GeomMap (map (geom_entry NP1) [(0, 1, 7, 1); (0, 0, 7, 1); (0, 1, 6, 1)]) None true
+  = Some (mkgeom [0; 0; 0] [0; 3; 1] [6; 7; 7] [1; 1; 1] [11; 59; 27] [140; 160; 160]
+                 [1; 0; 0] [0; 1; 0] [2; 1; 0], [2; 1; 0]).
+Proof. vm_compute. reflexivity. Qed.
+
+Example C08_example_offgrid : geometry NP21 GeomMap [(0, 28, 15, 1)] None true = None.
+Proof. vm_compute. reflexivity. Qed.
